@@ -32,6 +32,7 @@ type Program struct {
 	byName   map[string]*ssa.Package // by package name (pint packages)
 	ss       *Sorts
 	heapSorts map[string]string
+	heapElemType map[string]types.Type
 	contracts *ContractSet
 	contractErrors []contractErr
 	allFuncs  []*ssa.Function // all pint functions incl. anonymous and methods
@@ -56,7 +57,7 @@ func loadProgram(repo string, patterns []string, overlay map[string][]byte) (*Pr
 	if err != nil {
 		return nil, err
 	}
-	p := &Program{repo: repo, pkgs: pkgs, ssaPkgs: map[string]*ssa.Package{}, byName: map[string]*ssa.Package{}, ss: newSorts(), heapSorts: map[string]string{},
+	p := &Program{repo: repo, pkgs: pkgs, ssaPkgs: map[string]*ssa.Package{}, byName: map[string]*ssa.Package{}, ss: newSorts(), heapSorts: map[string]string{}, heapElemType: map[string]types.Type{},
 		funcByKey: map[string]*ssa.Function{}, modCache: map[*ssa.Function][]string{}, freshCache: map[*ssa.Function][]string{}, directCache: map[*ssa.Function]*directInfo{}, externals: map[string]int{}, addrTaken: map[*ssa.Function]bool{}}
 	packages.Visit(pkgs, nil, func(pk *packages.Package) {
 		if strings.HasPrefix(pk.PkgPath, pintPath) {
